@@ -67,13 +67,15 @@ def parsePVal (s : String) : Option PVal :=
 def showErr : Err → String
   | .base t => "b" ++ hexOfStr t
   | .ubase t => "u" ++ hexOfStr t
+  | .ctxErr d => if d then "d-" else "k-"
   | .pkgWrap m e => "p" ++ hexOfStr m ++ ">" ++ showErr e
   | .fmtWrap m e => "f" ++ hexOfStr m ++ ">" ++ showErr e
   | .recovered v => "recovered(" ++ showPVal v ++ ",1)"
 
 def parseErrLayers : List String → Option Err
   | [] => none
-  | [l] => if pfx "b" l then (strOfHex (dropN l 1)).map .base
+  | [l] => if l = "d-" then some (.ctxErr true) else if l = "k-" then some (.ctxErr false)
+           else if pfx "b" l then (strOfHex (dropN l 1)).map .base
            else if pfx "u" l then (strOfHex (dropN l 1)).map .ubase else none
   | l :: rest => do
     let inner ← parseErrLayers rest
@@ -246,9 +248,12 @@ def parseObs (s : String) : Option Obs :=
     | _ => none
   | _ => none
 
+def ctxErrTxt (d : Bool) : String := if d then "context deadline exceeded" else "context canceled"
+
 def fullTxt : Err → Option String
   | .base t => some t
   | .ubase t => some t
+  | .ctxErr d => some (ctxErrTxt d)
   | .pkgWrap m e => (fullTxt e).map (fun t => m ++ ": " ++ t)
   | .fmtWrap m e => (fullTxt e).map (fun t => m ++ ": " ++ t)
   | .recovered _ => none
@@ -258,6 +263,7 @@ def causeTxt : Err → Option String
   | .pkgWrap _ e => causeTxt e
   | .base t => some t
   | .ubase t => some t
+  | .ctxErr d => some (ctxErrTxt d)
   | .fmtWrap m e => (fullTxt e).map (fun t => m ++ ": " ++ t)
   | .recovered _ => none
 
